@@ -209,7 +209,23 @@ def target_dir(crate):
     return TARGET
 
 
+def fix_workspace():
+    """The harness workspace globs `h-*`; a member directory that is still being created (no
+    src/main.rs yet) would break every build, so such directories are listed under `exclude`."""
+    hd = os.path.join(ROOT, 'harness')
+    bad = sorted(d for d in os.listdir(hd) if d.startswith('h-') and os.path.isdir(os.path.join(hd, d))
+                 and not (os.path.exists(os.path.join(hd, d, 'Cargo.toml')) and os.path.exists(os.path.join(hd, d, 'src', 'main.rs'))))
+    p = os.path.join(hd, 'Cargo.toml')
+    txt = open(p).read()
+    new = re.sub(r'\nexclude = \[[^\]]*\]', '', txt)
+    if bad:
+        new = new.replace('members = ["vcommon", "h-*"]', 'members = ["vcommon", "h-*"]\nexclude = [%s]' % ', '.join('"%s"' % b for b in bad))
+    if new != txt:
+        open(p, 'w').write(new)
+
+
 def build_harness(crate, profile='dev', timeout=3600):
+    fix_workspace()
     lock_src = '/repo/Cargo.lock'
     lock_dst = os.path.join(ROOT, 'harness', 'Cargo.lock')
     if not os.path.exists(lock_dst):
